@@ -24,6 +24,27 @@ CHECKS = {
  "C18": ("exploration", "runtime monitor: decoy-insensitivity oracle over messages built by the reference encoder",
          "For a tag t in 8 roles x 6 decoy placements x genuine present/absent, messages containing 't=' inside other values and fields whose tag has t as a proper decimal suffix/prefix are built by the reference encoder, parsed (both modes) into the library template and queried with ValueByTag for every tag; results must equal what the construction says.",
          "Trusted base: fixref encoder/tokenizer and the construction-derived expectation. Connection framing and session-level extraction are covered by the C04/C16 workloads.", "DESIGN.md §3 C18"),
+ "C06": ("exploration", "runtime monitor: reference logon automaton (from the statement) checked against IsLogged / EventLogon / Outgoing() after every step of a real session",
+         "All histories up to length 3 (quick) / 4 (thorough) over a 19-symbol alphabet (3 acceptable Logons at mid/min/max interval, 7 refused or damaged ones, other admin/app/unknown messages, local Send/Logout) are driven through a real DefaultHandler+Session of either role, plus long random histories with varied limits; after every step the monitor compares logged-on state, logon event and emitted messages with the automaton the statement describes. Exhaustive for the bounded alphabet and length only.",
+         "Step driver: unbuffered handler + barrier handlers registered after Session.Run give exact step attribution; states the statement is silent about (logout answer pending) are not judged.", "DESIGN.md §4 C06"),
+ "C07": ("exploration", "runtime monitor: message-type filter on everything emitted before the first successful logon, with empty and preloaded stores, plus real-time idle sessions",
+         "Exhaustive histories (length <=2 quick / <=3 thorough) without an acceptable Logon, ResendRequests over 8 range shapes, both roles, empty store and a store preloaded through the public API with an earlier session's messages; every message on Outgoing() must be Logon, Logout or Reject. Idle real-time sessions (2.6 s) catch timers started before logon.",
+         "The application itself sends nothing before logon. Trusted base: step driver and reference tokenizer.", "DESIGN.md §4 C07"),
+ "C10": ("exploration", "runtime monitor: first transmissions recorded from Outgoing() compared byte-for-byte with what each ResendRequest draws; interval check for concurrent senders",
+         "For K<=6 (quick) / 8 (thorough) outbound messages of mixed origin, every (b,e) in [0,K+2]^2 is requested on a fresh session of either role, plus random sessions up to 200 messages with repeated/overlapping requests, all (expected,received) Logon sequence pairs in [1,7]x[1,8], and requests fed while 3 goroutines send. Exhaustive over the bounded ranges only.",
+         "Precondition of the statement (no refusal, no store failure) is kept. The reused-message-object class is a recorded known finding.", "DESIGN.md §4 C10"),
+ "C14": ("exploration", "runtime monitor: per-step output check (exactly one Heartbeat, byte-equal TestReqID) on a real session",
+         "TestReqIDs covering every single byte value except SOH, 40 decoys, lengths to 10000 and random strings are injected at varied positions of logged-on histories of both roles; the step's output must be exactly one Heartbeat whose 112 equals the ID byte for byte.",
+         "Step attribution (unbuffered handler + barrier) makes 'before any later reply' a per-step check.", "DESIGN.md §4 C14"),
+ "C15": ("exploration", "runtime monitor: Logout count / IsLogged / EventLogout per step and bounded-latency monitor on Context().Done()",
+         "Scenario matrix role x {peer logout, local logout then answer, Stop answered, Stop unanswered} x close timeouts x positions x application handler present; cancellation must follow the answer within 250 ms (+3x measured jitter; deadlines are >= 2 s there) and the deadline within closeTimeout+300 ms.",
+         "Wall clock only for the two bounds the statement names; a jitter canary makes overloaded runs inconclusive.", "DESIGN.md §4 C15"),
+ "C16": ("exploration", "runtime monitor: one-Reject / unchanged-state / still-serving oracle over a damage matrix on a real session",
+         "Matrix admin type x 8 kinds of damage or wrong state x session state x role x position, each followed by valid traffic; the offending step must emit exactly one Reject with 45 = offending 34 (or 371=34), leave IsLogged/context/handler untouched, and the next valid message must have its normal effect.",
+         "Tag 35 is never damaged (the message must stay identifiable as administrative).", "DESIGN.md §4 C16"),
+ "C19": ("fault_enumeration", "runtime monitor: offline checker over one call log (instrumented store + handlers) against wire output, with injected Save failures and handler refusals",
+         "Random handler layouts (ALL/type, three registration phases, refusal on the k-th call), EventLogon handler chains and a store failing on the k-th Save are exercised by sends, replies and rejects; for every step the logged call chain must be the registration-order prefix up to the first refusal, and a message is on Outgoing() iff the chain completed, saved before under its own 34, with Send's error result matching.",
+         "Fault space sampled (k-th save, k-th invocation), not exhausted. What type handlers do after an incoming ALL refusal is not judged.", "DESIGN.md §4 C19"),
 }
 
 NOT_YET = {}
